@@ -655,6 +655,14 @@ def denull(o):
         return {k: denull(v) for k, v in o.items()}
     if isinstance(o, list):
         return [denull(v) for v in o]
+    # TLC integers are 32-bit: a larger value (e.g. an underflowed uint32 TTL) would wrap silently and
+    # could satisfy a bound it grossly violates; saturate instead
+    if isinstance(o, bool):
+        return o
+    if isinstance(o, int):
+        return max(-2147483647, min(2147483647, o))
+    if isinstance(o, float):
+        return max(-2147483647, min(2147483647, int(o)))
     return o
 
 
